@@ -39,6 +39,15 @@ checks.update({
              text='Exploration: tens of thousands of generated messages of all five types (nested proofs, 0..20 votes/prepare senders, 0..256-byte ids/hashes/signatures/shares, 64-bit boundary values) and block proofs; every field and signature compared after the round trip; two parses of the same bytes compared.', ref='4/C20'),
 })
 
+checks.update({
+ 'C02': dict(engine='unit', note=UNIT_NOTE + " HMAC key manager as signature scheme.", technique='runtime differential monitor: real ValidateBlockConsensus next to a reference certificate predicate on synthesised, mutated and corrupted proofs',
+             text='Exploration: proofs synthesised for height-dependent weighted committees (signer sets exactly at the strict and soft boundaries, duplicates, outsiders, zero and >2^53 weights), mutated field by field and byte by byte, judged in both modes: accepted-but-not-reference or any panic is a violation.', ref='4/C02'),
+ 'C15': dict(engine='unit', note=UNIT_NOTE + " porcupine v1.3.0.", technique='runtime monitor: exhaustive operation sequences on the real context registry next to a reference model; porcupine linearizability check of concurrent histories',
+             text='Exploration, exhaustive in the small: every For/CancelOlderThan/Shutdown sequence up to length 5 (6 thorough) over 9 positions, laws checked after every step; 3-client concurrent histories checked for linearizability against the same model.', ref='4/C15'),
+ 'C17': dict(engine='unit', note=UNIT_NOTE, technique='runtime monitor: exhaustive and random operation sequences on the real RawMessageFilter with recording per-term handlers, judged by a reference delivery model',
+             text='Exploration, exhaustive in the small: every receive/advance sequence up to length 5 (6 thorough) incl. handlers that start the next height while a cached batch is consumed, plus long random sequences; every handler call judged (own height/instance/sender, exactly once, arrival order, timing) and cached messages judged for loss.', ref='4/C17'),
+})
+
 def cmd(pid, tier):
     return "./check %s --tier %s" % (pid, tier)
 
